@@ -137,8 +137,8 @@ theorem C05_switch_error_has_cause (P : Program) (val : Node → Option Val) (hs
     (s : St) (h : Reach P s) (e : Exc) (ho : s.outcome = some (.error e) ∨ s.outcome = some (.raised e)) :
     ErrCause P val e := by
   rcases ho with ho | ho
-  · exact (safe_reach hsw hsol h).data.out _ ho
-  · exact (safe_reach hsw hsol h).data.out _ ho
+  · exact (safe_reach_sw hsw hsol h).data.out _ ho
+  · exact (safe_reach_sw hsw hsol h).data.out _ ho
 
 /-- with sound collaborators and setup, the node (or switch) named by the error has no value in the dataflow semantics -/
 theorem C05_switch_error_is_a_real_failure (P : Program) (val : Node → Option Val) (hsw : SwP P)
@@ -147,7 +147,8 @@ theorem C05_switch_error_is_a_real_failure (P : Program) (val : Node → Option 
     (hcb : ∀ cb n, P.cbRaise cb n = none) (hpools : P.poolsOk = true) (hlk : e ≠ ⟨"Other:NodeNotFound", 0, 0, 0⟩) :
     (∃ n, P.g.isSwitch n = false ∧ NodeFails P val n e ∧ val n = none) ∨
     (∃ S, P.g.isSwitch S = true ∧ e = ⟨"SwitchNoCase", S, 0, 0⟩ ∧ swSel P val S = none ∧ val S = none) := by
-  rcases C05_switch_error_has_cause P val hsw hsol s h e ho with ⟨n, h1, h2⟩ | ⟨cb, m, hc⟩ | ⟨S, h1, h2, _, h4⟩ | h5 | ⟨h6, _⟩
+  rcases errCause_sw hsw (C05_switch_error_has_cause P val hsw hsol s h e ho) with
+    ⟨n, h1, h2⟩ | ⟨cb, m, hc⟩ | ⟨S, h1, h2, h4⟩ | h5 | ⟨h6, _⟩
   · refine Or.inl ⟨n, h1, h2, ?_⟩
     rw [hsol.plain n h1, h2.1]
     simp only [if_true, valueOf, h2.2]
@@ -162,7 +163,7 @@ theorem C05_switch_failure_is_never_masked (P : Program) (val : Node → Option 
     (hsol : SolutionSw P val) (s : St) (h : Reach P s) (hnone : val P.g.output = none) (v : Val) :
     s.outcome ≠ some (.value v) := by
   intro ho
-  have : val P.g.output = some v := (safe_reach hsw hsol h).data.out (.value v) ho
+  have : val P.g.output = some v := outcome_value_sw hsw ((safe_reach_sw hsw hsol h).data.out (.value v) ho)
   rw [hnone] at this; cases this
 
 end MLPE.Eng
